@@ -235,6 +235,11 @@ func auxMutants(otherCoinbase common.Address) []auxMutant {
 			ap.SetTransaction(s.coinbaseTx(s.commitment(wh.SealHash())))
 			return ap, nil, true
 		}},
+		// --- the second-chain field is part of what the template signers signed, for every algorithm
+		object("auxpow2/replaced", func(ap *types.AuxPow) bool {
+			ap.SetAuxPow2(append([]byte{0x01, 0x02, 0x03}, ap.AuxPow2()...))
+			return true
+		}),
 		// --- the template signature does not cover what is presented
 		object("sig/byte-flipped", func(ap *types.AuxPow) bool { ap.SetSignature(flip(ap.Signature(), 40)); return true }),
 		object("sig/r-flipped", func(ap *types.AuxPow) bool { ap.SetSignature(flip(ap.Signature(), 3)); return true }),
